@@ -10,6 +10,11 @@ CLAIMED = {
     technique='Coq proof over translator-regenerated Gallina + differential validation of the translator', ref='5 C19'),
 }
 
+CLAIMED['C07'] = dict(
+    text='Executable model of iteration_allocator<N> (Iteration.v) with theorems for every N>=1, every block size, every operation sequence: the N regions tile the block exactly; the invariant holds in every reachable state; each served request is aligned, inside the current region and disjoint from everything live; an allocation stays live across any operations containing fewer than N switches and no allocator write event touches it; a switch restores the full region capacity and never takes the crashing path; a failed request changes nothing. The region formula of the model is proved equal to block_start as translated from the source on this run. The constructor found at the pinned commit is refuted in Coq (N=3, size=1025) and was repaired (fix commit).',
+    note='Trusted: Coq kernel; hand-written Exec model tied to the real allocator by lock-step replay (every address, outcome, iteration index and capacity_left(i)) for N=1..5 in configurations base/rel/dbg8(/dbg16), block sizes covering every residue mod N; sizes are unbounded Z in the model (requests below 2^63; wrap-around of size_t in the bounds check is not modelled).',
+    technique='Coq invariant proof over an executable state machine + lock-step correspondence via extracted OCaml', ref='5 C07')
+
 NOT_YET = {}
 
 checks = []
